@@ -488,6 +488,9 @@ impl Scenario for S7 {
             None => Step::Done,
         }
     }
+    fn judge_in_child(&self) -> bool {
+        true
+    }
     fn log_digest(&self, w: &IWorld) -> u64 {
         w.log ^ S1.log_digest(&w.a) ^ S2.log_digest(&w.b).rotate_left(11) ^ S4.log_digest(&w.c).rotate_left(23) ^ ST.log_digest(&w.d).rotate_left(37)
     }
